@@ -174,15 +174,21 @@ def openapi_bulk(app_name, model_paths, routes_paths):
                 key: {k: v for k, v in val.items() if not k.startswith("$")}
                 for key, val in dict(
                     map(
-                        lambda table: (
-                            table["name"].replace("_tbl", "", 1).title(),
-                            cdd.json_schema.emit.json_schema(table),
+                        lambda name_table: (
+                            name_table[0],
+                            cdd.json_schema.emit.json_schema(name_table[1]),
                         ),
                         map(
                             lambda node: (
-                                cdd.sqlalchemy.parse.sqlalchemy_table(node)
+                                (
+                                    lambda table: (
+                                        table["name"].replace("_tbl", "", 1).title(),
+                                        table,
+                                    )
+                                )(cdd.sqlalchemy.parse.sqlalchemy_table(node))
                                 if isinstance(node, (AnnAssign, Assign, Call))
-                                else cdd.sqlalchemy.parse.sqlalchemy(node)
+                                # routes refer to a class by its own name, whatever its table is called
+                                else (node.name, cdd.sqlalchemy.parse.sqlalchemy(node))
                             ),
                             chain.from_iterable(map(parse_model, model_paths)),
                         ),
